@@ -27,7 +27,7 @@ plan('C15',
           'length + first 4 KiB), distinct generated string / query string, or distinct enumeration block (hash = first index of the block; the '
           'strings inside a block are counted as evaluations)',
      jobs=[
-         FuzzJob('fz_codecs', quick=200000, thorough=6000000, procs=(4, 12), max_len=300),
+         FuzzJob('fz_codecs', quick=200000, thorough=2000000, procs=(4, 12), max_len=300),
          # every length 0..1024, Base64 + hex both directions, whitespace-interleaved decoding
          Job(H, 'bytes', 'asan', quick=1025, thorough=1025, shards=(8, 16), params=dict(reps=3), tparams=dict(reps=16)),
          Job(H, 'bytes', 'plain', quick=1025, thorough=1025, shards=(4, 8), params=dict(reps=3, dump=1), tparams=dict(reps=16)),
